@@ -1,4 +1,6 @@
-import Pamqp.Props.TieA
+import Pamqp.Props.TieA.ReplyCodes
+import Pamqp.Props.TieA.ClassMapping
+import Pamqp.Props.TieA.FrameConstants
 /-!
 # C17 — reply-code exceptions and protocol constants match the specification
 Finite; all obligations are kernel evaluations on the regenerated tables (see TieA.lean).
